@@ -23,7 +23,7 @@ ASSUMPTIONS = [
 ]
 MONITORS = "independent walk of the workspace (bytes, directories, exec bits) after apply; second compare's action lists; onerror recorder; audit-hook log of removals"
 REQUIRED_COUNTERS = [
-    "implicit_parent_targets", "unavailable_directory_object_cases", "applies", "kind_swap_cases", "nested_dir_deletions", "lazy_targets", "explicit_targets", "delete_off_cases",
+    "two_cache_targets", "implicit_parent_targets", "unavailable_directory_object_cases", "applies", "kind_swap_cases", "nested_dir_deletions", "lazy_targets", "explicit_targets", "delete_off_cases",
     "unavailable_source_cases", "second_compares", "exec_entries_checked", "link/hardlink", "link/symlink", "link/copy",
 ]
 
@@ -86,22 +86,55 @@ def run_shard(ctx):
                 Te = set()
                 res.count("implicit_parent_targets")
 
+            # two caches: one for the whole tree, one for a sub-directory (longest prefix wins, whatever the registration order)
+            sub_cache = None
+            sub_prefix = None
+            if not lazy and tdirs and rng.random() < 0.25:
+                from dvc_data.index import ObjectStorage as _OS
+
+                sub_prefix = rng.choice(tdirs)
+                sub_cache = env.local_odb(os.path.join(d, "cache-sub"), **({"type": [link]} if link != "default" else {}))
+                indexlab.save_tree_to_cache(ctx, sub_cache, T, d, execs=(), name="src-sub")
+                below = {H("md5", v) for k, v in T.items() if k[: len(sub_prefix)] == sub_prefix}
+                outside = {H("md5", v) for k, v in T.items() if k[: len(sub_prefix)] != sub_prefix}
+                from ..oracle import list_store as _ls
+
+                for root_, keep in ((cache.path, outside), (sub_cache.path, below)):
+                    for o_, p_ in _ls(root_)[0].items():
+                        if not o_.endswith(".dir") and o_ not in keep:
+                            os.chmod(p_, 0o644)
+                            os.unlink(p_)
+                child_first = rng.random() < 0.5
+                res.count("two_cache_targets")
+
+            def with_storages(idx):
+                if sub_cache is None:
+                    return idx
+                from dvc_data.index import ObjectStorage as _OS2
+                from dvc_data.index.index import StorageMapping as _SM
+
+                idx.storage_map = _SM()
+                order = [(sub_prefix, sub_cache), ((), cache)] if child_first else [((), cache), (sub_prefix, sub_cache)]
+                for pre_, odb_ in order:
+                    idx.storage_map.add_cache(_OS2(key=pre_, odb=odb_))
+                return idx
+
             def target():
                 if implicit_parents:
                     idx = indexlab.explicit_index(T, (), texec, cache_odb=cache)
                     for dk in list(indexlab.dirs_of(T)):
                         if len(dk) > 1:
                             del idx[dk]
-                    return idx
+                    return with_storages(idx)
                 if lazy:
                     indexlab.put_dir_object(cache, T, lazy_at)
                     rest = {k: v for k, v in T.items() if k[: len(lazy_at)] != lazy_at}
                     return indexlab.lazy_index(T, lazy_at, cache_odb=cache, extra_files=rest)
-                return indexlab.explicit_index(T, Te, texec, cache_odb=cache)
+                return with_storages(indexlab.explicit_index(T, Te, texec, cache_odb=cache))
 
             # unavailable sources
             unavailable = set()
-            if rng.random() < 0.15:
+            if rng.random() < 0.15 and sub_cache is None:
                 for k, v in T.items():
                     if rng.random() < 0.3 and (P.get(k) != v):
                         o = H("md5", v)
@@ -121,7 +154,7 @@ def run_shard(ctx):
             for k in pexec:
                 os.chmod(os.path.join(ws, *k), 0o755)
 
-            cfg = {"implicit_parents": implicit_parents, "lazy": lazy, "lazy_at": "/".join(lazy_at) if lazy else None, "delete": delete, "link": link, "update_meta": update_meta, "state": use_state, "ops": ops[:8],
+            cfg = {"two_caches": ("/".join(sub_prefix), "child-first" if child_first else "parent-first") if sub_cache is not None else None, "implicit_parents": implicit_parents, "lazy": lazy, "lazy_at": "/".join(lazy_at) if lazy else None, "delete": delete, "link": link, "update_meta": update_meta, "state": use_state, "ops": ops[:8],
                    "swapped": swapped, "prior": sorted("/".join(k) for k in P), "target": sorted("/".join(k) for k in T),
                    "prior_empty_dirs": sorted("/".join(k) for k in Pe), "target_empty_dirs": sorted("/".join(k) for k in Te),
                    "unavailable": len(unavailable)}
@@ -218,6 +251,8 @@ def run_shard(ctx):
                             case=case, detail={**cfg, "errors": errors[:5]},
                         )
                     continue
+                if apply_exc is not None:
+                    continue  # apply stopped with an exception (after reporting): nothing is claimed about the rest
                 key = "target-file-missing" if g is None and k not in got else "target-file-wrong-bytes"
                 if k in pd:
                     key += "/was-directory"
